@@ -53,10 +53,10 @@ const NC: u64 = 4;
 const NTK: u64 = 9;
 const NL: u64 = 5;
 /// number of cases of the families A..E
-fn layout(tier: Tier) -> [u64; 5] {
+fn layout(tier: Tier) -> [u64; 6] {
 	let nd = dts(tier).len() as u64;
 	let ni = ibss(tier).len() as u64;
-	[waveforms(tier).len() as u64 * nd, nd, NC, NTK * ni, ni * NL]
+	[waveforms(tier).len() as u64 * nd, nd, NC, NTK * ni, ni * NL, 2]
 }
 /// (family 0..5, index inside the family)
 fn locate(tier: Tier, idx: u64) -> (usize, u64) {
@@ -67,7 +67,7 @@ fn locate(tier: Tier, idx: u64) -> (usize, u64) {
 		}
 		i -= n;
 	}
-	(5, i)
+	(6, i)
 }
 
 // ---------------------------------------------------------------------------------------------
@@ -442,13 +442,14 @@ impl Check for C17 {
 				TK_NAMES[(i / ni) as usize],
 				ibss(tier)[(i % ni) as usize]
 			),
-			(_, i) => format!(
+			(4, i) => format!(
 				"E: histories over {:?} of length {} starting with '{}', internal buffer size {}",
 				LETTERS,
 				e_depth(tier),
 				LETTERS[(i % NL) as usize],
 				ibss(tier)[(i / NL) as usize]
 			),
+			(_, i) => format!("F: E2 interleavings: game(add_modulator; {}play(sound whose volume is linked to it)) || audio(3 callbacks), then tweener.set", if i == 0 { "" } else { "add_sub_track; " }),
 		}
 	}
 	fn rule(&self) -> String {
@@ -457,6 +458,7 @@ impl Check for C17 {
 		 C (Mapping::map): input ranges {(0,1),(1,0),(-2,3),(10,-10)} x output ranges {(0,1),(5,-5),(-24,6)} x 7 easings x 11 inputs (before, at, inside, beyond the range) x {f64, Decibels, ClockSpeed, PlaybackRate, f64 through an LFO offset linked to a modulator value}. \
 		 D (chains through the renderer, 8 callbacks incl. partial chunks and two-chunk callbacks): target {sound, sub-track, main-track, effect volume; clock speed; LFO offset, amplitude, frequency; LFO -> sub-track volume} x internal buffer size {1,3,8} [thorough +5] x source {3 tweeners, 7 LFOs} x 7 mappings (inverted ranges, inputs outside the range, easings) x link {when built, set later instantly, set later with a tween, reader older than its source} x drop of an older modulator x drop of the source [thorough: several drop/link times]. \
 		 E (probe modulators that count updates and record what they read): ALL histories of the stated length over {add, drop oldest, drop newest, drop middle, callback of ibs+1 frames} + 2 callbacks, x internal buffer size; a probe sound and a probe main-track effect read every modulator in every chunk. \
+		 F (E2): all interleavings (preemption bound 2 / 3) of game(add_modulator; [add_sub_track;] play(sound linked to it)) with audio(3 callbacks), switching at every resource hand-over point. \
 		 non-trivial = the observed quantity (modulator value, linked parameter/gain/clock position, probe readings) changed at least once during the run (C: result differs from the first output bound); states = distinct reference-model states (A,B,D: quantised value/phase/parameters; E: liveness, removal flags and update order)".into()
 	}
 	fn assumptions(&self) -> Vec<String> {
@@ -479,10 +481,11 @@ impl Check for C17 {
 			(1, i) => fam_b(tier, dts(tier)[i as usize], ctx),
 			(2, i) => fam_c(i as usize, ctx),
 			(3, i) => fam_d(tier, (i / ni) as usize, ibss(tier)[(i % ni) as usize], ctx),
-			(_, i) => {
+			(4, i) => {
 				let mut letters = vec![(i % NL) as u8];
 				fam_e(ibss(tier)[(i / NL) as usize], &mut letters, e_depth(tier), ctx)
 			}
+			(_, i) => fam_f(tier, i, ctx),
 		}
 	}
 }
@@ -1479,4 +1482,134 @@ fn history(ibs: usize, letters: &[u8], ctx: &mut Ctx, text: &dyn Fn() -> String)
 		ctx.nontrivial_extra += 1;
 	}
 	ctx.outcome(hash64(&(mods.iter().map(|p| (p.state, p.count)).collect::<Vec<_>>(), &order)));
+}
+
+// ---------------------------------------------------------------------------------------------
+// F (E2): a parameter linked to a modulator that was added a moment ago. Whatever the interleaving of the
+// gameplay thread's (add_modulator; play(sound linked to it)) with the audio thread's adoption of new
+// resources, the sound's volume is the mapping of the modulator's value from its first audible frame on,
+// and it keeps following the modulator afterwards.
+
+fn fam_f(tier: Tier, which: u64, ctx: &mut Ctx) {
+	use crate::rig;
+	use crate::sched::{self, Config, Exec};
+	use kira::sound::Region;
+	use kira::track::{MainTrackBuilder, TrackBuilder};
+	fn filt(s: &'static str) -> bool {
+		s.starts_with("res.") || s.starts_with("rtrb.") || s.starts_with("arena.")
+	}
+	let cfg = Config { filter: filt, horizon: 4000, max_spin_rounds: 8, record_sites: true, ..Default::default() };
+	#[derive(Debug, Clone, Default, PartialEq)]
+	struct Obs {
+		heard: Vec<f32>,
+		later: Vec<f32>,
+		monitors: Vec<String>,
+	}
+	let mapping = Mapping { input_range: (0.0, 1.0), output_range: (Decibels(-20.0), Decibels(0.0)), easing: Easing::Linear };
+	let g = |v: f64| (0.5 * 10f64.powf((-20.0 + 20.0 * v) / 20.0)) as f32;
+	let mut body = |prefix: &[u8]| -> (sched::RunResult, Obs) {
+		let mut m = rig::manager(SR, 1, rig::caps(2), MainTrackBuilder::new());
+		let mut renderer = m.backend_mut().renderer.take().expect("renderer");
+		let obs = Arc::new(Mutex::new(Obs::default()));
+		let back = Arc::new(Mutex::new(None));
+		type Keep = (rig::Manager, kira::modulator::tweener::TweenerHandle, Option<kira::track::TrackHandle>, kira::sound::static_sound::StaticSoundHandle);
+		let keep: Arc<Mutex<Option<Keep>>> = Arc::new(Mutex::new(None));
+		let mut ex = Exec::begin(&cfg, prefix);
+		{
+			let keep = keep.clone();
+			ex.spawn("game", move || {
+				let tw = m.add_modulator(TweenerBuilder { initial_value: 0.25 }).expect("tweener");
+				let vol: Value<Decibels> = Value::FromModulator { id: tw.id(), mapping };
+				let data = rig::static_data(SR, rig::dc_frames(4, 0.5)).loop_region(Region::from(..)).volume(vol);
+				if which == 0 {
+					let h = m.play(data).expect("play");
+					*keep.lock().unwrap() = Some((m, tw, None, h));
+				} else {
+					let mut t = m.add_sub_track(TrackBuilder::new()).expect("track");
+					let h = t.play(data).expect("play");
+					*keep.lock().unwrap() = Some((m, tw, Some(t), h));
+				}
+			});
+		}
+		{
+			let (obs, back) = (obs.clone(), back.clone());
+			ex.spawn("audio", move || {
+				let mut buf = [0.0f32; 2];
+				for _ in 0..3 {
+					let rep = rig::callback_on(&mut renderer, &mut buf, 1, 2);
+					let mut o = obs.lock().unwrap();
+					if !rep.ok() {
+						o.monitors.push(format!("{:?}", rep));
+					}
+					o.heard.push(buf[0]);
+				}
+				*back.lock().unwrap() = Some(renderer);
+			});
+		}
+		let res = ex.run();
+		let mut o = obs.lock().unwrap().clone();
+		let kept = keep.lock().unwrap().take();
+		if let (Some(mut r), Some((m, mut tw, t, h))) = (back.lock().unwrap().take(), kept) {
+			let mut b = [0.0f32; 2];
+			for _ in 0..2 {
+				rig::callback_on(&mut r, &mut b, 1, 2);
+				o.heard.push(b[0]);
+			}
+			tw.set(1.0, Tween { duration: Duration::ZERO, ..Default::default() });
+			for _ in 0..3 {
+				rig::callback_on(&mut r, &mut b, 1, 2);
+				o.later.push(b[0]);
+			}
+			drop(r);
+			drop((m, tw, t, h));
+		}
+		(res, o)
+	};
+	let mut outcomes = std::collections::HashSet::new();
+	let mut fails: Vec<(String, String)> = vec![];
+	let mut nontrivial = 0u64;
+	let mut judge = |res: &sched::RunResult, o: &Obs, choices: &[u8]| {
+		outcomes.insert(hash64(&format!("{:?}", o)));
+		if choices.iter().any(|c| *c != 0) {
+			nontrivial += 1;
+		}
+		for p in &res.panics {
+			fails.push((format!("panic in a controlled thread: {} :: F #{}", p, which), sched::fmt_schedule(res)));
+		}
+		if let Some(mn) = o.monitors.first() {
+			fails.push((format!("a callback racing with add_modulator / play panics, allocates or writes an ill-formed sample :: F #{}", which), format!("{}; {}", mn, sched::fmt_schedule(res))));
+		}
+		if let Some((k, x)) = o.heard.iter().enumerate().find(|(_, x)| **x != 0.0 && (**x - g(0.25)).abs() > 1e-6) {
+			fails.push((
+				format!("a parameter linked to a freshly added modulator is not the mapping of the modulator's value :: F #{}", which),
+				format!("frame {} = {}, expected silence (not adopted yet) or {} (mapping of 0.25); heard {:?}; {}", k, x, g(0.25), o.heard, sched::fmt_schedule(res)),
+			));
+			return;
+		}
+		if o.later.last().map(|x| (*x - g(1.0)).abs() > 1e-6).unwrap_or(true) {
+			fails.push((
+				format!("a parameter linked to a freshly added modulator does not follow the modulator afterwards :: F #{}", which),
+				format!("after tweener.set(1.0, instant): heard {:?}, expected {}; before {:?}; {}", o.later, g(1.0), o.heard, sched::fmt_schedule(res)),
+			));
+		}
+	};
+	let stats = sched::explore(tier.pick(Some(2), Some(3)), 3_000_000, &mut body, &mut judge);
+	if let Some(e) = stats.error {
+		ctx.fail(format!("MACHINERY: scheduler error: {}", e), "");
+	}
+	ctx.schedules += stats.schedules;
+	ctx.evals += stats.schedules;
+	ctx.traces += stats.schedules;
+	ctx.transitions += stats.schedules * stats.max_points as u64;
+	ctx.count(&format!("f_schedules[#{}]", which), stats.schedules);
+	ctx.count(&format!("f_max_points[#{}]", which), stats.max_points as u64);
+	ctx.count("f_capped", stats.capped as u64);
+	for o in outcomes {
+		ctx.outcome(o);
+		ctx.state(o);
+	}
+	ctx.nontrivial_extra += nontrivial;
+	for (s, d) in fails {
+		ctx.fail(s, d);
+	}
 }
